@@ -1,5 +1,5 @@
 """Correspondence for the source-to-Lean translator (gen/py2lean.py) and its run-time library (lean/Asn1/PyLite.lean):
-the *translation* of a function (driver ops KTAG, KLEN, KTOBYTES, KOIDENC, KOIDDEC, KTIME, KREAL, KREALDEC, KDECLEN, KCERBOOL, KWRAP) and the function itself in /repo are
+the *translation* of a function (driver ops KTAG, KLEN, KTOBYTES, KOIDENC, KOIDDEC, KTIME, KREAL, KREALDEC, KDECLEN, KCERBOOL, KWRAP, KINTDEC; PYFROMBYTES) and the function itself in /repo are
 run on the same arguments; the Python builtins PyLite transcribes (PYOP) are compared with CPython.
 
 A disagreement means the translator or PyLite misrepresents the code (machinery fault to repair) - it is reported as a
@@ -47,7 +47,7 @@ def _py(f, *a, **kw):
     return ('ok', r)
 
 
-def check(rep, drv, seed, n=400, which=('encodeTag', 'encodeLength', 'toBytes', 'oidEncode', 'oidDecode', 'timeCanon', 'realBin', 'realDec', 'decodeLength', 'cerBool', 'wrapTags')):
+def check(rep, drv, seed, n=400, which=('encodeTag', 'encodeLength', 'toBytes', 'oidEncode', 'oidDecode', 'timeCanon', 'realBin', 'realDec', 'decodeLength', 'cerBool', 'wrapTags', 'intDecode')):
     """returns number of cases compared"""
     from pyasn1.codec.ber import encoder as benc, decoder as bdec
     from pyasn1.compat import integer
@@ -103,6 +103,11 @@ def check(rep, drv, seed, n=400, which=('encodeTag', 'encodeLength', 'toBytes', 
         cmp_('PYSL', 'PYSL to %d %s' % (i, ' '.join(map(str, t))), ('ok', t[:i]))
         a, b = rng.randrange(-5, 6), rng.randrange(0, 9)
         cmp_('PYOP', 'PYOP pow %d %d' % (a, b), ('ok', [a ** b]))
+    # int.from_bytes
+    for _ in range(max(20, n // 5)):
+        t = [rng.choice([0, 0, 1, 0x7f, 0x80, 0xff, rng.randrange(256)]) for _ in range(rng.randrange(0, 12))]
+        for sg in (True, False):
+            cmp_('PYFROMBYTES', 'PYFROMBYTES %d %s' % (sg, ' '.join(map(str, t))), ('ok', [int.from_bytes(bytes(t), 'big', signed=sg)]))
     # fixed corners of int.to_bytes (length 0 accepts 0 and, signed, -1)
     for a in (-257, -256, -255, -129, -128, -127, -2, -1, 0, 1, 127, 128, 129, 255, 256, 257, 32767, 32768, -32768, -32769):
         for ln in (0, 1, 2, 3):
@@ -386,6 +391,27 @@ def check(rep, drv, seed, n=400, which=('encodeTag', 'encodeLength', 'toBytes', 
             impl = _py(lambda: list(st.encode(o, None, None, defMode=dm, ifNotEmpty=ine)))
             cmp_('wrapTags', 'KWRAP %d %d %d %d %d %d %s %s' % (indef_ok, ine, dm, ic, io, ntags,
                                                            ' '.join('%d %d %d' % t for t in tags), ' '.join(map(str, sub))), impl)
+    if 'intDecode' in which:
+        import io as _io3
+
+        class CapI(Exception):
+            pass
+        idec = bdec.IntegerPayloadDecoder()
+
+        def capture_i(asn1Spec, tagSet, value, **options):
+            raise CapI(value)
+        idec._createComponent = capture_i
+        for i in range(n):
+            body = bytes(rng.choice([0, 0, 0xff, 0x7f, 0x80, 1, rng.randrange(256)]) for _ in range(rng.choice([0, 1, 1, 2, 3, 8, 9, 40])))
+
+            def real():
+                try:
+                    for x in idec.valueDecoder(_io3.BytesIO(body), None, tagSet=univ.Integer.tagSet, length=len(body)):
+                        pass
+                except CapI as c:
+                    return [int(c.args[0])]
+                return ['no-value']
+            cmp_('intDecode', 'KINTDEC ' + ' '.join(str(b) for b in body), _py(real))
     rep.count('kernel_correspondence', done)
     return done
 
